@@ -94,3 +94,30 @@ Print Assumptions example_run.
 Theorem subscription_gap : exists c, unsubscribed_reads c (impl_deps c) (domain c) <> [].
 Proof. exact TParamsProofs.subscription_gap. Qed.
 Print Assumptions subscription_gap.
+
+(* TERMINATION, for every schedule: if all work happens on the nodes of a finite list Dl, every
+   re-queue list has at most k entries, the sets hold no duplicates and stay inside a finite
+   universe U that the rules do not leave, then |wl| + |Dl| * |U| * (k + 1) steps suffice *)
+Theorem run_terminates : forall c deps (Dl U : list N) (k : nat) wl st fuel,
+  (forall x, In x wl -> In x Dl) -> (forall n x, In x (deps n) -> In x Dl) ->
+  (forall n, (length (deps n) <= k)%nat) ->
+  (forall n, NoDup (st n) /\ incl (st n) U) ->
+  (forall s n, In n Dl -> (forall m, incl (s m) U) -> incl (F c s n) U) ->
+  (length wl + length Dl * length U * (k + 1) <= fuel)%nat ->
+  exists r, run fuel c deps wl st = Some r.
+Proof. exact TParamsProofs.run_terminates. Qed.
+Print Assumptions run_terminates.
+
+(* the rules never leave a universe that contains the type parameters among the nodes worked on:
+   every id in a set was put there by the TypeParam rule *)
+Theorem F_closed_typeparams : forall c (Dl U : list N),
+  (forall n, In n Dl -> kind_of (cg c) n = Some KTypeParam -> In n U) ->
+  forall s n, In n Dl -> (forall m, incl (s m) U) -> incl (F c s n) U.
+Proof. exact TParamsProofs.F_closed_typeparams. Qed.
+Print Assumptions F_closed_typeparams.
+
+(* the solver keeps the sets duplicate-free (so the length test of the implementation is the set test) *)
+Theorem run_nodup : forall fuel c deps wl st r,
+  run fuel c deps wl st = Some r -> (forall n, NoDup (st n)) -> forall n, NoDup (r n).
+Proof. exact TParamsProofs.run_nodup. Qed.
+Print Assumptions run_nodup.
